@@ -564,7 +564,7 @@ fn node_write_marker<W: corez::io::Write>(d: &NodeData, w: &mut W) -> corez::io:
     w.write_all(&[d.start_time as u8, d.end_time as u8, d.start_target as u8, d.end_target as u8])
 }
 
-//@ {"p":"C20","tier":"quick","clause":"V1 combine: start fields from the left child, end fields from the right child, work and transaction counts summed, branch id from the left; the subtree commitment is the hash of record(left) followed by record(right), each exactly once and in that order, under the personalisation \"ZcashHistory\" || branch_id (LE)","bounds":"every field of both children symbolic; counter and work sums assumed not to overflow (work < 2^255 each, stated)","assume":"stubs: zcash_history::version::blake2b_personal records its arguments and returns arbitrary 32 bytes (hash abstraction); NodeData::write replaced by a 4-byte identifying marker (its real output is decided by c20_write_layout_v1)","covers":1,"t":1200,"stub":true}
+//@ {"p":"C20","tier":"quick","clause":"V1 combine: start fields from the left child, end fields from the right child, work and transaction counts summed, branch id from the left; the subtree commitment is the hash of record(left) followed by record(right), each exactly once and in that order, under the personalisation \"ZcashHistory\" || branch_id (LE)","bounds":"every field of both children symbolic; counter and work sums assumed not to overflow (work < 2^255 each, stated)","assume":"stubs: zcash_history::version::blake2b_personal records its arguments and returns arbitrary 32 bytes (hash abstraction); NodeData::write replaced by a 4-byte identifying marker (its real output is decided by c20_write_layout_v1)","covers":1,"t":1200,"stub":true,"replay":"model"}
 #[kani::proof]
 #[kani::stub(zcash_history::version::blake2b_personal, blake2b_personal_stub)]
 #[kani::stub(zcash_history::node_data::NodeData::write, node_write_marker)]
@@ -600,3 +600,48 @@ fn c20_combine_v1() {
     assert!(unsafe { H_IN } == want);
     kani::cover!(l.start_time as u8 != r.start_time as u8);
 }
+
+// ---------------------------------------------------------------------------------------------
+// Entry arithmetic and the partial-view constructor.
+// ---------------------------------------------------------------------------------------------
+
+//@ {"p":"C20","tier":"quick","clause":"Entry::leaf_count == end_height - start_height + 1 for every representable height range (including end_height == u64::MAX); complete() iff that count is a power of two; leaf()/left()/right() reflect the entry kind","bounds":"all (start, end) with start <= end and end - start != u64::MAX","covers":3,"t":600}
+#[kani::proof]
+fn c20_entry_leaf_count() {
+    let (start, end): (u64, u64) = (kani::any(), kani::any());
+    kani::assume(start <= end && end - start != u64::MAX);
+    let e: Entry<SV> = Entry::new_leaf(SNode { start, end, mix: 0 });
+    let n = e.leaf_count();
+    assert!(n as u128 == end as u128 - start as u128 + 1);
+    assert!(e.complete() == (n & (n - 1) == 0));
+    assert!(e.leaf() && e.left().is_err() && e.right().is_err());
+    let f: Entry<SV> = Entry::new(SNode { start, end, mix: 1 }, EntryLink::Stored(3), EntryLink::Generated(4));
+    assert!(!f.leaf() && matches!(f.left(), Ok(EntryLink::Stored(3))) && matches!(f.right(), Ok(EntryLink::Generated(4))));
+    assert!(f.leaf_count() == n);
+    kani::cover!(end == u64::MAX && n == 1);
+    kani::cover!(n == 1 << 63);
+    kani::cover!(!e.complete());
+}
+
+macro_rules! tree_new_root {
+    ($name:ident, $n:expr) => {
+        #[kani::proof]
+        #[kani::unwind(8)]
+        fn $name() {
+            const N: usize = $n;
+            let leaves: [u64; 17] = kani::any();
+            let m = build(N, &leaves);
+            let t = m.view(false);
+            assert!(t.len() as usize == m.len);
+            // the partial view's root is the peaks bagged LEFT to RIGHT: ((p0, p1), p2) ...
+            assert!(*t.root_node().unwrap().data() == m.root());
+            core::mem::forget(t);
+        }
+    };
+}
+//@ {"p":"C20","tier":"experimental","clause":"Tree::new on the minimal partial view of a 7-leaf tree (three peaks): the root equals the from-scratch MMR root (peaks bagged left to right) and the length is the array length","bounds":"N=7 (peaks of 4, 2, 1 leaves), all leaf payloads symbolic; structural Version","covers":0,"t":1200,"unwindset":{"search_tree.0":2,"find_key_index.0":14}}
+tree_new_root!(c20_tree_new_7, 7);
+//@ {"p":"C20","tier":"experimental","clause":"same for N=15 (four peaks)","bounds":"N=15","covers":0,"t":2400,"unwindset":{"search_tree.0":2,"find_key_index.0":14}}
+tree_new_root!(c20_tree_new_15, 15);
+//@ {"p":"C20","tier":"experimental","clause":"same for N=3 (two peaks)","bounds":"N=3","covers":0,"t":900,"unwindset":{"search_tree.0":2,"find_key_index.0":14}}
+tree_new_root!(c20_tree_new_3, 3);
